@@ -367,6 +367,59 @@ def csv_sep_case(rng, tier):
     return ["tabws " + args, "tabrts " + args]
 
 
+def csv_typed_case(rng, tier):
+    """readAs(types): columns typed n / s / i, a character that matches no case (the cell is dropped), fewer type characters
+    than columns (the rest is inferred); 's' columns hold ANY string, number look-alikes included; every separator setting"""
+    sep, dec = rng.choice([(44, 46), (44, 46), (59, 46), (59, 44), (9, 46)])
+    ncols = rng.randrange(2, 7)
+    names = rng.sample(COLS, ncols)
+    ntyped = ncols if rng.random() < 0.7 else rng.randrange(0, ncols)
+    types = "".join(rng.choice("nnsssiix" if rng.random() < 0.9 else "nsiq ") for _ in range(ntyped))
+    if rng.random() < 0.05:
+        types += "sn"           # more type characters than columns
+    nrows = rng.choice([0, 1, 2, 3, 5, 8])
+    cells = []
+    for _ in range(nrows):
+        for j in range(ncols):
+            ty = types[j] if j < len(types) else "?"
+            r = rng.random()
+            if ty == "n":
+                if r < 0.8:
+                    c = "n:" + rnumber(rng).decode()
+                elif r < 0.9:
+                    c = "s:" + hexs(rng.choice([b"1.5", b"7", b"-2.5e3", b"0.25", b"12", b"1e5"]))
+                else:
+                    c = "s:-"
+            elif ty == "i":
+                if r < 0.5:
+                    c = "n:" + str(rng.randrange(-100000, 100000))
+                elif r < 0.8:
+                    c = "s:" + hexs(rng.choice([b"0", b"-0", b"+7", b"2147483647", b"-2147483648", b"2147483648", b"4294967296", b"99999999999",
+                                               b"-99999999999", b"12abc", b"", b"-", b"+", b" 5", b"1.9", b"007"]))
+                else:
+                    c = "s:" + hexs(str(rng.randrange(-2 ** 33, 2 ** 33)).encode())
+            elif ty == "?":
+                if r < 0.5:
+                    c = "n:" + rnumber(rng).decode()
+                else:
+                    x = rstring(rng, False)
+                    if NUMLIKE.match(x.replace(b",", b".")):
+                        x = b"x" + x
+                    c = "s:" + hexs(x)
+            else:       # 's' and dropped columns: anything at all that a line can hold
+                if r < 0.35:
+                    c = "s:" + hexs(rng.choice([b"1", b"-1", b"1.5", b"1,5", b"1e5", b"007", b"123456789012345678901", b"-0", b".5", b"5.", b"1e+300"]))
+                elif r < 0.45:
+                    c = "n:" + rnumber(rng).decode()
+                else:
+                    c = "s:" + hexs(rstring(rng, True))
+            if c.startswith("s:") and c != "s:-" and b"\t" in unhex(c[2:]):
+                c = "s:" + hexs(unhex(c[2:]).replace(b"\t", b" "))
+            cells.append(c)
+    args = "%s %d %d %d %s%s" % (types.replace(" ", "_") or "-", sep, dec, ncols, " ".join(hexs(x) for x in names), "".join(" " + c for c in cells))
+    return ["tabrtt " + args]
+
+
 CSVCH = b"ab1,;\"\t .-e\n\r5"
 
 
@@ -432,6 +485,8 @@ def gen(rng, tier):
         cases.append(csv_array_case(rng, tier))
     for _ in range(250 * k):
         cases.append(csv_sep_case(rng, tier))
+    for _ in range(250 * k):
+        cases.append(csv_typed_case(rng, tier))
     for _ in range(400 * k):
         cases.append(csvtext_case(rng, tier))
     for _ in range(60 * k):
@@ -453,7 +508,7 @@ def nontrivial(case):
         t = l.split()
         if t[0] in ("set", "put") or (t[0] == "inirt" and len(t) > 3 and t[2] not in ("-", "none")):
             return True
-        if t[0] in ("tabws", "tabrts", "inidir"):
+        if t[0] in ("tabws", "tabrts", "inidir", "tabrtt", "tabreadt"):
             return True
         if t[0] in ("tabw", "tabrt", "tabrtx") and any(c not in ("s:-", "[", "]", "=") for c in t[2 + int(t[1]):]):
             return True
